@@ -8,7 +8,7 @@ from ..report import Run
 from ..skel import count_marker, field_class, recv_path, render, render_sites, renderable_classes, root_attr, skeletons
 from ..symex import (Alt, CondI, Const, CtxV, EnumV, Evaluator, Hole, Inh, InhOr, JoinP, Lit, Obj, One, Opaque, Phi, Rep,
                      RepI, SlotP, Str, Sym, show, walk_parts)
-from .c08 import node_attrs
+from .c08 import _root_self_attr, node_attrs
 
 NO_VALUES = {"schema": "Schema renders identifiers only", "_schema": "Schema renders identifiers only",
              "as_type": "SQL type descriptor (SqlType/SqlTypeLength/str) renders no values"}
@@ -207,11 +207,12 @@ def check(program: Program, run: Run) -> None:
     for c, (skv, ev) in sk.items():
         na = node_attrs(program, c)
         for part, conds, in_rep in walk_parts(skv):
-            if isinstance(part, Hole) and isinstance(part.value, Sym) and part.value.kind == "attr" \
-                    and isinstance(part.value.args[0], Obj) and part.value.args[0].root and part.value.args[1] in na:
+            if isinstance(part, Hole) and isinstance(part.value, Sym) and _root_self_attr(part.value) in na:
                 if any(("<class Term>" in show(cd, -20) or "<class Node>" in show(cd, -20)) and "isinstance" in show(cd, -20) for cd in conds):
                     continue  # the formatting branch is taken only after an isinstance test excluded Term/Node
-                a = part.value.args[1]
+                if any("hasattr" in show(cd, -20) and "get_sql" in show(cd, -20) and show(cd, -20).startswith("not") for cd in conds):
+                    continue  # str() only for objects without get_sql
+                a = _root_self_attr(part.value)
                 where = f"{part.src[2]}:{part.src[1]}" if part.src else ""
                 run.ob("C04/R1 child node rendered through get_sql(ctx)", f"{c.qualname}:{a}", False, where=where)
                 run.finding(f"C04/ctx-bypass:{part.src[0] if part.src else c.qualname}:{a}",
